@@ -30,3 +30,37 @@ Proof.
   apply (write_then_read_covered m1 variable nl t2 Hwf Hc Hs Hw Hl chunks2 Hc2).
 Qed.
 Print Assumptions C02_second_read_equals_first_when_canonical.
+
+(* partial - what the reader can hand back, element by element: every value produced by the two element
+   readers of converters.go is within the element's width and trimmed, except that a variable-length
+   element longer than its width is cut after trimming and the cut may end in a blank (the recorded
+   finding; `cut_leaves_a_blank` in Theory/ElementValues.v is the witness). Lifted to whole tags: for the
+   55 tags whose Parse program stores only such values, every element of a parsed tag is trimmed or such a
+   cut. Not proved: the message-level statement "the second read equals the first for every accepted text"
+   (false on the pinned tree, see the findings), and the five tags with raw fixed-position slices. *)
+From Wire Require Import Model.Converters Model.Layout Model.Codec Theory.ElementValues.
+From WireGen Require Import Tags.
+
+Theorem C02_fixed_element_value_partial : forall r mx got rd,
+  parse_fixed r mx = (got, rd, None) -> length got <= mx /\ trimmed got = true.
+Proof. exact parse_fixed_value. Qed.
+Print Assumptions C02_fixed_element_value_partial.
+
+Theorem C02_variable_element_value_partial : forall r mx got rd,
+  parse_variable r mx = (got, rd, None) ->
+  length got <= mx /\
+  (trimmed got = true \/ exists full, trimmed full = true /\ mx < length full /\ got = firstn mx full).
+Proof. exact parse_variable_value. Qed.
+Print Assumptions C02_variable_element_value_partial.
+
+Definition trimming_tags : list tagdesc := filter (fun d => forallb step_trims (t_parse d)) tags.
+
+Theorem C02_parsed_tag_values_partial : forall d rec v,
+  In d trimming_tags -> parse_tag d rec = POk v -> Forall val_ok (tv_elems v).
+Proof.
+  intros d rec v Hin. apply filter_In in Hin as [_ Hs]. exact (parse_tag_values d rec v Hs).
+Qed.
+Print Assumptions C02_parsed_tag_values_partial.
+
+Example trimming_tags_are_most : length trimming_tags = 55 /\ length tags = 60.
+Proof. vm_compute. split; reflexivity. Qed.
